@@ -33,7 +33,7 @@ var profiles = map[string]Profile{
 	"scthr2":    {Name: "scthr2", Clients: 3, Resources: 4, Refs: true, Collections: true, Unsub: true, Resets: true, Denials: true, Disconnect: true, Clean: true, Throttle: 2, Scenario: "thr"},
 	"legacy":    {Name: "legacy", Clients: 3, Resources: 4, Stimuli: 20, Refs: true, Collections: true, Unsub: true, Clean: true, Legacy: true},
 	"legacyacc": {Name: "legacyacc", Clients: 2, Resources: 4, Stimuli: 22, Refs: true, Collections: true, Unsub: true, Reaccess: true, Tokens: true, Resets: true, Denials: true, Clean: true, Legacy: true},
-	"scgraph":   {Name: "scgraph", Clients: 2, Resources: 5, Refs: true, Collections: true, Unsub: true, Scenario: "graph"},
+	"scgraph":   {Name: "scgraph", Clients: 2, Resources: 5, Refs: true, Collections: true, Unsub: true, Legacy: true, Scenario: "graph"},
 	"sclimit":   {Name: "sclimit", Clients: 1, Resources: 2, Unsub: true, Scenario: "limit"},
 	"resetf":    {Name: "resetf", Clients: 2, Resources: 4, Stimuli: 22, Refs: true, Collections: true, Unsub: true, Resets: true, Clean: true, ResetFaults: true},
 	"scdisc":    {Name: "scdisc", Clients: 2, Resources: 3, Refs: true, Unsub: true, Reaccess: true, Tokens: true, Calls: true, Resets: true, Disconnect: true, Endgame: true, Scenario: "disc"},
